@@ -222,8 +222,8 @@ def zoom(array, zoom, out=None, order=3, mode='constant', cval=0.0, prefilter=Tr
     zoom = np.ascontiguousarray(zoom)
 
     # Zooming to infinity is unpredictable, so just choose
-    # zoom factor 1 instead
-    zoom[np.isinf(zoom)] = 1
+    # zoom factor 1 instead (an axis of length 1 kept at length 1 gives 0/0)
+    zoom[~np.isfinite(zoom)] = 1
 
     _check_mode(mode, cval, 'interpolation.zoom')
 
